@@ -307,6 +307,13 @@ pub fn aes256_decrypt_stub(_s: &AesSivCmac256, nonce: &[u8], ct: &[u8], _aad: &[
     oracle_decrypt_n(nonce, ct)
 }
 
+pub fn aes512_encrypt_stub(_s: &AesSivCmac512, _b: &mut [u8], _n: usize, _aad: &[u8]) -> std::io::Result<EncryptResult> {
+    Err(std::io::ErrorKind::Other.into())
+}
+pub fn aes256_encrypt_stub(_s: &AesSivCmac256, _b: &mut [u8], _n: usize, _aad: &[u8]) -> std::io::Result<EncryptResult> {
+    Err(std::io::ErrorKind::Other.into())
+}
+
 pub fn real_keyset(id_offset: u32) -> ntp_proto::KeySet {
     // GenericArray from an array: no loop (`try_from` collects byte by byte)
     let keys = vec![AesSivCmac512::new([0u8; 64].into())];
@@ -587,6 +594,16 @@ macro_rules! pharness {
         harness! {
             #[kani::stub(core::str::from_utf8, crate::common::from_utf8_stub)]
             #[kani::stub(core::slice::ascii::is_ascii, crate::common::is_ascii_stub)]
+            // Every `&dyn Cipher` call is resolved by CBMC into a switch over ALL implementations in
+            // the binary, including the real AES-SIV ones: their bodies are replaced in every packet
+            // harness (oracle model for decrypt, refusal for encrypt), whether or not the harness
+            // ever hands out an AES-SIV object.
+            #[kani::stub(<ntp_proto::verif::packet::crypto::AesSivCmac512 as ntp_proto::Cipher>::decrypt, crate::common::aes512_decrypt_stub)]
+            #[kani::stub(<ntp_proto::verif::packet::crypto::AesSivCmac256 as ntp_proto::Cipher>::decrypt, crate::common::aes256_decrypt_stub)]
+            #[kani::stub(<ntp_proto::verif::packet::crypto::AesSivCmac512 as ntp_proto::Cipher>::encrypt, crate::common::aes512_encrypt_stub)]
+            #[kani::stub(<ntp_proto::verif::packet::crypto::AesSivCmac256 as ntp_proto::Cipher>::encrypt, crate::common::aes256_encrypt_stub)]
+            #[kani::stub(zeroize::barrier::optimization_barrier, crate::common::zeroize_barrier_stub)]
+            #[kani::stub(zeroize::volatile_set, crate::common::zeroize_volatile_set_stub)]
             $(#[$m])*
             fn $name() $body
         }
